@@ -70,15 +70,26 @@ Section Html.
 
   Record hstate := { hs_stack : fstack; hs_added : list N }.      (* fullname_serializer, added_default *)
 
+  (* the table the serialiser starts from: the declarations in scope at the node, without a default namespace that is not the
+     node's own (it is never written on the node, OPrefix below) *)
   Definition hser_new (z : zipper) : hstate :=
-    {| hs_stack := fs_new (in_scope nm z); hs_added := [] |}.
+    let own := match z_val z with VElement n => Some (n_ns_of_name nm n) | _ => None end in
+    {| hs_stack := fs_new (filter (fun d => negb (N.eqb (fst d) ep)
+                                            || match own with Some ns => N.eqb (snd d) ns | None => false end)
+                                  (in_scope nm z));
+       hs_added := [] |}.
 
   Definition element_of (z : zipper) : option nameid := match z_val z with VElement n => Some n | _ => None end.
+
+  (* the declarations of an element that are in force for its descendants: a default-namespace declaration for another
+     namespace than the element's own is never written (OPrefix below) and is not pushed either *)
+  Definition effective_declarations (z : zipper) (name : nameid) : list (prefixid * nsid) :=
+    filter (fun d => negb (N.eqb (fst d) ep) || N.eqb (snd d) (n_ns_of_name nm name)) (declarations z).
 
   Definition hrender (cdata : list nameid) (st : hstate) (z : zipper) (o : output) : hres (hstate * token) :=
     match o with
     | OStartTagOpen name =>
-        let own := declarations z in
+        let own := effective_declarations z name in
         let stack1 := fs_push (hs_stack st) own in
         let ns := n_ns_of_name nm name in
         if must_be_unprefixed ns && negb (has_empty_prefix ep stack1 ns) then
@@ -105,7 +116,7 @@ Section Html.
         | None => HErr HMissingPrefix
         | Some t =>
             let added := match hs_added st with a :: _ => N.eqb a (z_slot z) | [] => false end in
-            let has_decls := match declarations z with [] => false | _ => true end in
+            let has_decls := match effective_declarations z name with [] => false | _ => true end in
             HOk ({| hs_stack := fs_pop (hs_stack st) (added || has_decls);
                     hs_added := if added then tl (hs_added st) else hs_added st |}, t)
         end
